@@ -256,7 +256,85 @@ func main() {
 	swg.Wait()
 	run.Set("stress_trials", trials)
 	run.Set("stress_response_frames_injected", frames)
+	fragments(run, &established)
 	os.Exit(run.Finish())
+}
+
+// fragments is leg (c): well-formed responses handed over as an arbitrary
+// byte stream, optionally while one request is blocked in the underlying Write.
+func fragments(run *ev.Run, established *int32) {
+	trials := 240
+	if run.Thorough() {
+		trials = 4000
+	}
+	rng := run.Rand("c06-fragment")
+	type spec struct {
+		n       int
+		seed    int64
+		blocked bool
+	}
+	var par, ser []spec
+	for i := 0; i < trials; i++ {
+		ns := []int{1, 2, 3, 4, 8, 16, 40, 64}
+		sp := spec{ns[rng.Intn(len(ns))], rng.Int63(), i%3 == 0}
+		if sp.blocked {
+			ser = append(ser, sp)
+		} else {
+			par = append(par, sp)
+		}
+	}
+	var mu sync.Mutex
+	chunks, splits, bytes, blockedN := 0, 0, 0, 0
+	var fragEstablished int32
+	one := func(sp spec) {
+		if atomic.LoadInt32(&fragEstablished) >= 3 {
+			return // each established stall costs seconds; three witnesses are enough
+		}
+		r := rig.FragmentTrial(sp.n, sp.seed, sp.blocked)
+		run.Eval(1)
+		mu.Lock()
+		chunks += r.Chunks
+		splits += r.SplitPrefixes
+		bytes += r.Bytes
+		if sp.blocked {
+			blockedN++
+		}
+		mu.Unlock()
+		switch {
+		case r.Stall != "":
+			atomic.AddInt32(established, 1)
+			atomic.AddInt32(&fragEstablished, 1)
+			cls := "response-read-but-not-delivered"
+			if strings.Contains(r.Stall, "parked acquiring a mutex") {
+				cls = "reader-parked-on-lock"
+			}
+			run.Violation("C06:fragment:"+cls, r.Stall, r.Witness)
+		case r.Bad != "":
+			atomic.AddInt32(established, 1)
+			atomic.AddInt32(&fragEstablished, 1)
+			run.Violation("C06:fragment:wrong-completion", r.Bad, r.Witness)
+		case r.Inconclusive != "":
+			run.Inconclusive("fragment trial: " + r.Inconclusive)
+		default:
+			run.Distinct(fmt.Sprintf("fragment %s chunks=%d split=%d", r.Shape, r.Chunks, r.SplitPrefixes))
+		}
+	}
+	var wg sync.WaitGroup
+	sem := make(chan struct{}, 8)
+	for _, sp := range par {
+		wg.Add(1)
+		sem <- struct{}{}
+		go func(sp spec) { defer wg.Done(); defer func() { <-sem }(); one(sp) }(sp)
+	}
+	wg.Wait()
+	for _, sp := range ser { // the lock criterion reads goroutine dumps: one at a time
+		one(sp)
+	}
+	run.Set("fragment_trials", trials)
+	run.Set("fragment_trials_with_a_request_blocked_in_Write", blockedN)
+	run.Set("fragment_pieces_fed", chunks)
+	run.Set("fragment_size_prefixes_split_across_reads", splits)
+	run.Set("fragment_response_bytes", bytes)
 }
 
 // heldDuplicates returns the largest number of deliveries made for one caller
